@@ -58,7 +58,7 @@ def gen(tier, rng):
                 n += 1
                 if tier == "quick" and n % 3:
                     continue
-                cpu = rz.CPUS[n % 3]
+                cpu = rz.pick(n, 122, rz.CPUS)
                 box = None if n % 4 else (1, 1, 2 * sw - 2, 2 * sh - 3)
                 Q = 1 if box is None else 2
                 kw = dict(alg=alg, flt=flt, m=m, box=box, Q=Q, cpu=cpu)
@@ -90,7 +90,7 @@ def gen(tier, rng):
         for (sw, sh, dw, dh) in geoms[:3]:
             g += 1
             for al in (False, True):
-                cases.append(rz.resize_case(pt, sw, sh, dw, dh, alg="conv", flt="Lanczos3", alpha=al, cpu=rz.CPUS[g % 3],
+                cases.append(rz.resize_case(pt, sw, sh, dw, dh, alg="conv", flt="Lanczos3", alpha=al, cpu=rz.pick(g, 123, rz.CPUS),
                                             src_c={"g": "rand", "seed": g, "flo": 0.0, "fhi": 1.0}, log=("dst",),
                                             chk=("pipeline", "ret_ok") + (("memo_exact",) if al else ()), g=g))
     return cases
